@@ -55,7 +55,7 @@ def run(chk):
     rng = np.random.default_rng(chk.seed)
     chk.cov['rule'] = ('cases = file sets x request sequences enumerated by TLC; each run through unpack_to_pipe (recording pipe) and a subset through the CLI '
                        'and a real OS pipe; non-trivial = request that must succeed with at least one field; distinct by (file set, existence pattern, request)')
-    chk.assumptions += ['files are written uncompressed (asdf 5.4 cannot write blsc blocks; the blsc reader is covered by C14)',
+    chk.assumptions += ['every second file is blsc-compressed by rewriting its blocks with the repository\'s compress over the shim codec (asdf 5.4 cannot write blsc blocks itself)',
                         'the recording pipe takes memoryview(x).tobytes() of whatever object is written, as a BufferedWriter would']
     cf = os.path.join(chk.scratch, 'cases.json')
     maxreq = 2 if chk.quick else 3
@@ -72,7 +72,12 @@ def run(chk):
         if key not in filecache:
             arrs = {f: make_array(f, n, w, k, rng) for (f, n, w) in spec}
             fn = os.path.join(chk.scratch, f'f{len(filecache)}.asdf')
-            asdf.AsdfFile({'header': {'k': k}, 'data': arrs}).write_to(fn)
+            if len(filecache) % 2:
+                # every second file is blsc-compressed (blocks rewritten with the repository's own compressor)
+                from blscfile import write_blsc
+                write_blsc(fn, {'header': {'k': k}, 'data': arrs}, cbs=16)
+            else:
+                asdf.AsdfFile({'header': {'k': k}, 'data': arrs}).write_to(fn)
             filecache[key] = (fn, arrs)
         return filecache[key]
 
